@@ -15,6 +15,10 @@ if a == 'Cache':
             (r'\bliveMap\(', 'liveMapOf('), (r'\bremovedEntry\(', 'removedEntryOf('),
             (r'\bEC\(', 'ECOf('), (r'\bcacheInv\(', 'cacheInvOf('), (r'\bcfgOK\(', 'cfgOKOf('),
             (r': string ::', ': K ::'), (r'\(\*xsync\.Map\)', '(*xsync.MapOf[K, V])'),
+            (r'\bDefaultConfig\b', 'DefaultConfigOf'), (r'\bconfigDefault\b', 'configDefaultOf'),
+            (r'\bWith(\w+)\$1', r'With\1Of$1'), (r'\bNewMapPresized\b', 'NewMapOfPresized'),
+            (r'\bnewXsyncMapDefault\b', 'newXsyncMapOfDefault'), (r'\bnewXsyncMap\b', 'newXsyncMapOf'),
+            (r'\bxsyncMapWrapper\b', 'xsyncMapOfWrapper'), (r'\.xsyncMap\b', '.xsyncMapOf'),
             ('twin-begin Cache', 'twin-begin CacheOf'), ('twin-end Cache', 'twin-end CacheOf')]
     for x, y in subs:
         of = re.sub(x, y, of)
